@@ -38,6 +38,7 @@ Payload(k) == CASE k = "vec"       -> Vec("ok", "P1")
 Call(op, i, k) == [op |-> op, i |-> i, k |-> k]
 Alphabet ==
      {Call("Start", 0, "none"), Call("NextTimeout", 0, "none"), Call("End", 0, "none")}
+\cup {Call("Start", 0, "short")}       \* Start with a 31-byte seed: an invalid-input error for a participant that deals, ignored otherwise
 \cup {Call("HB", 0, "vec"), Call("HB", 2, "complaint"), Call("HB", 0, "answer"), Call("HB", 2, "junk"),
       Call("HB", -1, "vec"), Call("HB", N, "junk"), Call("HB", Me, "vec")}
 \cup {Call("HP", 0, "share"), Call("HP", N, "share"), Call("HP", -1, "share")}
@@ -80,6 +81,7 @@ Do(c) ==
   LET Rej(cls) == [cls |-> cls, phase |-> phase, ps |-> ps, nto |-> nto, out |-> <<>>, fl |-> {}] IN
   CASE c.op = "Start" ->
          IF phase = "running" THEN Rej("ST")
+         ELSE IF c.k = "short" /\ Me \in Dealers THEN Rej("II")    \* dkg_feldmanvss.go:140-157: nothing dealt, not started (repair D8)
          ELSE [cls |-> "nil", phase |-> "running", ps |-> ps, nto |-> nto, out |-> StartOut, fl |-> {}]
     [] c.op = "NextTimeout" ->
          IF Proto = "fvss" THEN Rej("nil")                                   \* no timeouts: a no-op in every phase
